@@ -138,3 +138,54 @@ simple("dataiter/list_of_dicts.py::ListOfDicts.__getitem__[slice lo:hi]",
 simple("dataiter/list_of_dicts.py::ListOfDicts.insert",
        lambda run: ((l, i, x) for l in lists(maxlen(run)) for i in IDX[1:] for x in [{"a": 1}, {}]),
        lambda d, i, x: d.insert(i, x), lambda l, i, x: (l.insert(i, x), l)[1], B)
+
+
+def none_last_sorted(l, keydirs):
+    data = list(l)
+    for k, d in reversed(keydirs):
+        nn = [x for x in data if x[k] is not None]
+        nones = [x for x in data if x[k] is None]
+        nn = sorted(nn, key=lambda x: x[k], reverse=d < 0) if d > 0 else \
+            [x for _, x in sorted(enumerate(nn), key=lambda ix: (-_rank(ix[1][k]), ix[0]))]
+        data = nn + nones
+    return data
+
+
+def _rank(v):
+    return v
+
+
+def sort_oracle(l, keydirs):
+    """Stable lexicographic order, None last in both directions (definition, not the algorithm):
+    position p precedes q iff key-wise before, ties by original index."""
+    idx = list(range(len(l)))
+
+    def before(x, y, k, d):
+        vx, vy = x[k], y[k]
+        if vx is None or vy is None:
+            return vx is not None and vy is None
+        return vx < vy if d > 0 else vy < vx
+
+    def lex(i, j):
+        for k, d in keydirs:
+            if before(l[i], l[j], k, d):
+                return True
+            if before(l[j], l[i], k, d):
+                return False
+        return i < j
+    import functools
+    idx.sort(key=functools.cmp_to_key(lambda i, j: -1 if lex(i, j) else (1 if lex(j, i) else 0)))
+    return [l[i] for i in idx]
+
+
+for _name, _kd in [("one key ascending", [("a", 1)]), ("one key descending", [("a", -1)]),
+                   ("two keys asc,asc", [("a", 1), ("b", 1)]), ("two keys asc,desc", [("a", 1), ("b", -1)]),
+                   ("two keys desc,asc", [("a", -1), ("b", 1)]), ("two keys desc,desc", [("a", -1), ("b", -1)])]:
+    simple(f"dataiter/list_of_dicts.py::ListOfDicts.sort[{_name}]",
+           lambda run: ((l,) for l in full_lists(3 if run.tier == "thorough" else 3)),
+           (lambda kd: lambda d: d.sort(**dict(kd)))(_kd), (lambda kd: lambda l: sort_oracle(l, kd))(_kd), B)
+
+simple("dataiter/list_of_dicts.py::ListOfDicts.unique[one key]",
+       lambda run: ((l,) for l in full_lists(3)),
+       lambda d: d.unique("a"),
+       lambda l: [x for i, x in enumerate(l) if not any(y["a"] == x["a"] for y in l[:i])], B)
